@@ -219,6 +219,10 @@ func (c *Conn) waitCloseHandshake() error {
 	if atomic.LoadInt32(&c.readClose) == 1 {
 		return net.ErrClosed
 	}
+	// From here on frames are consumed behind the back of any message reader. The
+	// connection is closed once we return, but a reader waiting for readMu may get
+	// it first: it must not go on with the state of a frame that is gone.
+	atomic.StoreInt32(&c.readClose, 1)
 
 	err = c.discardPayload(ctx, c.msgReader.payloadLength)
 	if err != nil {
